@@ -6,7 +6,7 @@
 #include <map>
 
 enum CellState : uint8_t { CS_UNWRITTEN = 0, CS_FILL = 1, CS_VALUE = 2, CS_UNKNOWN = 3 };
-struct Cell { uint8_t st = CS_UNWRITTEN; uint8_t wmask = 0; /* ranks that wrote it since the last documented synchronisation */ long long v = 0; };
+struct Cell { uint8_t st = CS_UNWRITTEN; uint8_t wmask = 0; /* ranks that wrote it since the last documented synchronisation */ uint8_t bb = 0; /* burst-buffer fragment: ranks whose log may still hold a write to it */ uint8_t bbx = 0; /* ... ranks whose flush of such a write is not yet ordered (barrier / collective flush) before the other ranks' next calls */ uint8_t bbpend = 0; /* ... number of pending nonblocking put requests covering it */ long long v = 0; };
 
 struct MAtt { std::string name; int type = NC_INT; std::vector<long long> v; };
 struct MDim { std::string name; long long len = 0; };   // len == 0: the unlimited dimension
@@ -19,8 +19,8 @@ struct MVar {
     std::vector<Cell> cells;    // fixed: recelems cells; record: numrecs_alloc * recelems
     long long nrec_alloc = 0;
 };
-struct MReq { bool live = false; int kind = K_IPUT; int var = 0; Access acc; long long nbytes = 0; int opidx = -1; long long abuf_bytes = 0; };
-struct MRank { std::vector<std::pair<long long, int>> abuf_table; /* (bytes, reqslot or -1 when released) in allocation order */ long long numrecs = 0; std::vector<MReq> reqs; bool abuf = false; long long abuf_size = 0, abuf_used = 0; bool numrecs_dirty = false; };
+struct MReq { bool live = false; int kind = K_IPUT; int var = 0; Access acc; long long nbytes = 0; int opidx = -1; long long abuf_bytes = 0; long long maxrec = 0; /* put: number of records the file has once the request is in it */ };
+struct MRank { std::vector<std::pair<long long, int>> abuf_table; /* (bytes, reqslot or -1 when released) in allocation order */ long long numrecs = 0; std::vector<MReq> reqs; bool abuf = false; long long abuf_size = 0, abuf_used = 0; bool numrecs_dirty = false; bool bb_pending = false; /* burst buffer: the rank's log may hold unflushed entries */ };
 enum FMode { FM_DEFINE, FM_COLL, FM_INDEP };
 struct MFile {
     bool open = false; std::string path; int format = 1; int mode = FM_DEFINE; bool readonly = false; bool fresh = true; // fresh: created and never enddef'ed
@@ -41,6 +41,7 @@ struct Model {
     bool strict_coord = false;
     bool aggr_env = false;
     bool safe_mode = false;   // PNETCDF_SAFE_MODE: argument errors of collective data calls are shared (every rank returns the smallest code)
+    bool bb_rules = false;    // C12: the program is annotated by the burst-buffer fragment rules (documented limitations) whichever driver executes it
     bool strict_iget_overlap = false;   // check the overlapped share of overlapping iget requests completed by one wait (known finding: kept for 10% of C02 seeds)
     std::vector<MFile> files;                 // file slots
     std::map<std::string, MFile> disk;        // closed files by path
